@@ -50,12 +50,12 @@ SPEC = dict(
              "without it (two registered connections after simultaneous dials; a closed connection registered for ever; no "
              "connection and nobody dialling after a close while dial attempts were pending) - all three repaired in /repo. "
              "Tie on every run: the real keepThisConnection on thousands of SKI pairs and the real registry/"
-             "HandleConnectionClosed against the model inside Coq; ~50 scenarios on two REAL hubs in one process (real TLS and "
+             "HandleConnectionClosed against the model inside Coq; ~80 scenarios on two REAL hubs in one process (real TLS and "
              "websockets over loopback, fake mDNS, harness TCP proxies, dial back-off scaled to 0-1 s): SKI order x pairing "
              "before/after visibility x simultaneous or staggered x disturbance lists (DisconnectSKI by either side, cutting "
              "the TCP connections, restarting a hub, simultaneous mDNS events, a close while delayed dials are pending, and compound disturbances inside the 500 ms "
              "window of a graceful close: DisconnectSKI on both hubs 0/50/150/400 ms apart in both orders, DisconnectSKI then a "
-             "transport cut 50-400 ms later, a cut then DisconnectSKI); at "
+             "transport cut 50-400 ms later, a cut then DisconnectSKI; pairing by a hub that does not wait for trust, 100-1500 ms after the peer started dialling it - while an aborted request of the peer is still registered or between two; Shutdown and Start of both hub OBJECTS while each has a delayed dial pending whose timer expires while the hubs are down); at "
              "quiescence (polled) the live TCP connections through the proxies, both registries, completion, live set-up "
              "connections and a SPINE payload in both directions are recorded and the model's monitor decides inside Coq; the "
              "source structure the model's configuration states (registration through registerCheckedConnection, the "
@@ -72,7 +72,7 @@ SPEC = dict(
     imports="From Ship Require Import Base HubConv.\nOpen Scope N_scope.",
     case_type="c05_case", check_fn="check_c05",
     drivers=[dict(bin="hubunit", args=["-prop", "C05"], n_quick=2000, n_thorough=40000),
-             dict(bin="hubdrv", args=["-prop", "C05"], n_quick=68, n_thorough=400, timeout=1200)],
+             dict(bin="hubdrv", args=["-prop", "C05"], n_quick=82, n_thorough=400, timeout=1200)],
     codes={10: "both_simultaneous_connections_registered", 11: "zero_connections_nothing_pending",
            12: "closed_connection_registered", 13: "two_completed_connections",
            14: "unregistered_extra_connection", 15: "different_objects_kept",
